@@ -21,6 +21,10 @@ def script(name, module, func, **kw):
     return d
 
 CHECKS = {
+    "C03": {"crate": "h_chain", "bin": "c03", "level": "exploration", "legs": [
+        native(),
+        tsan(args={"quick": {"mode": "threaded", "budget-s": 40}, "thorough": {"mode": "threaded", "budget-s": 300}}),
+    ]},
     "C04": {"crate": "h_engines", "bin": "c04", "level": "exploration", "legs": [native()]},
     "C05": {"crate": "h_engines", "bin": "c05", "level": "exploration", "legs": [
         native(),
@@ -53,6 +57,11 @@ CHECKS = {
         asan(tiers=["thorough"], args={"thorough": {"budget-s": 240, "images": 24, "chains": 1, "threads": 8}}),
     ]},
     "C18": {"crate": "h_engines", "bin": "c18", "level": "exploration", "legs": [native()]},
+    "C13": {"crate": "h_chain", "bin": "c13", "level": "fault_enumeration", "legs": [
+        native(),
+        script("strace-ack", "legs_fsync", "c13_leg"),
+    ]},
+    "C14": {"crate": "h_misc", "bin": "c14", "level": "exploration", "legs": [native()]},
     "C15": {"crate": "h_engines", "bin": "c15", "level": "exploration", "legs": [native()]},
     "C19": {"crate": "h_misc", "bin": "c19", "level": "exploration", "legs": [
         native(),
